@@ -412,7 +412,7 @@ Contract(
                                                  c.ret == jcl(eff_classes(c.old(c.a.config, "classes")), c.a.data)), ("C14", "C07")),
     ],
     modifies=[Ghost("imports"), Ghost("constructs"), Ghost("xlate_log"), Ghost("x_kind"), Ghost("x_val"),
-              Ghost("checked_name")],
+              Ghost("checked_name"), Ghost("bean_attrs")],
     props=("C14", "C08"),
 )
 
@@ -441,6 +441,6 @@ Contract(
                                                                     jloads_of(Val.s(c.a.data))))), ("C14", "C07")),
     ],
     modifies=[Ghost("imports"), Ghost("constructs"), Ghost("xlate_log"), Ghost("x_kind"), Ghost("x_val"),
-              Ghost("checked_name")],
+              Ghost("checked_name"), Ghost("bean_attrs")],
     props=("C14", "C08"),
 )
